@@ -184,6 +184,10 @@ def check(run):
             sl = norm(st.targets[0].slice).replace(' ', '')
             run.check(sl == ':self.N', 'R13.getprob', g, st, 'the readout signs belong to the N stabilizer rows [:self.N]')
     # kernels
+    from ..rules import pair as _pair
+    for rel in (K.PY_U, K.TC_U):
+        for q in ('stabilizer_expect', 'stabilizer_projection_trace'):
+            _pair.check_self_products(run, repo.func(rel, q))
     for rel in (K.PY_U, K.TC_U):
         f = repo.func(rel, 'stabilizer_expect')
         rowclass.check_expect_guards(run, f)
@@ -201,6 +205,7 @@ def check(run):
     trace_kernel(run, repo, K.PY_U, True)
     trace_kernel(run, repo, K.TC_U, False)
     K.product_sites(run, repo.func(K.PY_U, 'stabilizer_projection_trace'), floor=2)
+    run.floor('R7.self', 4)
     entries = [repo.func(K.PY_S, 'StabilizerState.expect'), repo.func(K.PY_S, 'StabilizerState.get_prob'),
                repo.func(K.TC_S, 'StabilizerState.expect'), repo.func(K.TC_S, 'StabilizerState.get_prob')]
     resolve.check_cone(run, repo, entries, 'expect')
